@@ -7,6 +7,14 @@ ROOT = os.path.dirname(os.path.dirname(os.path.abspath(__file__)))
 ALL = [f"C{i:02d}" for i in range(1, 21)]
 
 CLAIMED = {
+    "C02": dict(
+        text="Bounded symbolic execution (CrossHair/z3) of the real Server.get_paths on symbolic path strings (character level) and on segment products over "
+             "class representatives ('..', '.', '', backslash, drive / UNC shapes, '//' leads) for five base-path flavours, against an independent stack-machine "
+             "resolution; plus every path handler through the real dispatcher on a spying backend (every backend path inside base, sibling tree untouched, PWD normalised).",
+        note="Trusted: CrossHair/z3 and its execution of pathlib's pure-Python parsing (sys.intern stubbed to the identity). Outside: longer paths, symlinks, other Windows flavours.",
+        technique="bounded symbolic execution of the real Python code (CrossHair 0.0.110 + z3): differential harness against a reference path resolver",
+        design_ref="DESIGN.md section 3 C02",
+    ),
     "C06": dict(
         text="Bounded symbolic execution (CrossHair/z3) of the real write_response/write_line -> parse_line/parse_response round trip (line-level alphabet, "
              "exhaustive; sentinel reply detects desynchronisation), rejection of a mismatching final line, Code.matches on fully symbolic code and mask strings, "
